@@ -53,10 +53,13 @@ Inductive range_res := ROk (s e : list N) | ROutOfBound | RDecodeErr.
 Definition strip_or_empty (c : ks) (x : list N) : list N :=
   if has_prefix (prefix c) x then skipn (length (prefix c)) x else [].
 
-(* DecodeRange *)
-Definition decode_range (c : ks) (s e : list N) : range_res :=
+(* DecodeRange. [fixed = true] is the code as it is now; [fixed = false] is the formula before the repair
+   (commit f1823af), kept as a regression witness: it lacked the second out-of-bound test. *)
+Definition decode_range_gen (fixed : bool) (c : ks) (s e : list N) : range_res :=
   if lex_leb (end_key c) s || (negb (nilb e) && lex_leb e (prefix c)) then ROutOfBound
+  else if fixed && negb (has_prefix (prefix c) s) && lex_ltb (prefix c) s then ROutOfBound
   else ROk (strip_or_empty c s) (strip_or_empty c e).
+Definition decode_range := decode_range_gen true.
 
 (* memComparableCodec.decodeKey: DecodeBytes, leftover dropped *)
 Definition mem_decode (b : list N) : option (list N) :=
